@@ -14,7 +14,9 @@ classschema('ClusterParameters', MS + 'ClusterParameters',
                  train_inverse='arr2[real]', _member_points='list[int]'))
 classschema('ModelState', MS + 'ModelState',
             dict(arguments='obj:UserArguments', clusters='list[obj:ClusterParameters]', label_assignment_cost='real',
-                 _point_labels='list[int]', point_log_likelihood='arr2[real]', stacked_training_data='arr2[real]'))
+                 _point_labels='list[int]', point_log_likelihood='arr2[real]', stacked_training_data='arr2[real]',
+                 # ghost typestate: 0 initial labelling, 1 repopulated, 2 statistics fitted, 3 MRFs optimised, 4 relabelled
+                 _phase='int'))
 
 specfn('ascending', "lambda xs: forall(lambda i, j: implies(0 <= i and i < j and j < len(xs), xs[i] < xs[j]))")
 
